@@ -36,6 +36,7 @@ type Engine struct {
 	usesStrID   bool
 	globals     map[*ssa.Global]string
 	assumedUsed map[string]*Contract
+	assumedClauses map[string]bool
 	funcs       map[string]*ssa.Function
 	verifRoot   string
 	mu          sync.Mutex
@@ -43,7 +44,7 @@ type Engine struct {
 }
 
 func newEngine(verifRoot string) *Engine {
-	return &Engine{contracts: map[string]*Contract{}, specs: map[string]*SpecFn{}, specText: map[string]string{}, pathIDs: map[string]int{}, typeIDs: map[string]int{}, boxed: map[string]Val{}, globals: map[*ssa.Global]string{}, assumedUsed: map[string]*Contract{}, funcs: map[string]*ssa.Function{}, verifRoot: verifRoot, sizes: types.SizesFor("gc", "amd64")}
+	return &Engine{contracts: map[string]*Contract{}, specs: map[string]*SpecFn{}, specText: map[string]string{}, pathIDs: map[string]int{}, typeIDs: map[string]int{}, boxed: map[string]Val{}, globals: map[*ssa.Global]string{}, assumedUsed: map[string]*Contract{}, assumedClauses: map[string]bool{}, funcs: map[string]*ssa.Function{}, verifRoot: verifRoot, sizes: types.SizesFor("gc", "amd64")}
 }
 
 func (e *Engine) noteAssumed(con *Contract) { e.assumedUsed[con.Key] = con }
@@ -285,15 +286,20 @@ func (e *Engine) queryTextVariant(o *Obligation, variant string) string {
 func (e *Engine) header(c *FnCtx) string {
 	var b strings.Builder
 	b.WriteString(preamble)
-	usesStrRow := false
+	usesStrRow, usesBxor := false, false
 	for _, ln := range c.script {
-		if strings.Contains(ln, "strrow") {
+		if !usesStrRow && strings.Contains(ln, "strrow") {
 			usesStrRow = true
-			break
+		}
+		if !usesBxor && strings.Contains(ln, "(bxor ") {
+			usesBxor = true
 		}
 	}
 	if usesStrRow {
 		b.WriteString(strrowAxiom)
+	}
+	if usesBxor {
+		b.WriteString(bxorAxioms)
 	}
 	b.WriteString(pow2fDef())
 	b.WriteString(preamble2)
